@@ -24,12 +24,9 @@ impl From<String> for Text { #[verifier::external_body] fn from(s: String) -> Te
 impl IdentBuf { #[verifier::external_body] pub fn as_str(&self) -> (r: &IdentBuf) ensures *r == *self { unimplemented!() } }
 #[verifier::external_body] pub struct Docs { x: u8 }
 #[verifier::external_body] pub struct LifetimeEnv { x: u8 }
-#[verifier::external_body] pub struct PrimitiveType { x: u8 }
-impl Clone for PrimitiveType { #[verifier::external_body] fn clone(&self) -> (r: Self) ensures r == *self { unimplemented!() } }
-impl Copy for PrimitiveType {}
 #[verifier::external_body] pub struct Rest { x: u8 }
 pub enum Type { Primitive(PrimitiveType), Enum(Rest), Struct(Rest), Other(Rest) }
-pub mod hir { pub use super::Type; }
+pub mod hir { pub use super::Type; pub use super::{PrimitiveType, IntType, IntSizeType, Int128Type, FloatType}; }
 pub struct StructField { pub docs: Docs, pub name: IdentBuf, pub ty: Type }
 pub struct StructDef { pub fields: Vec<StructField>, pub lifetimes: LifetimeEnv, pub docs: Docs }
 // generated names as functions of what they are generated from
@@ -85,6 +82,10 @@ def closure_body(src, it, head_re, what):
 def build(tier):
     vf = VerusFile(NAME)
     vf.add(vhelp.HEADER)
+    prims = Src("core/src/hir/primitives.rs")
+    for e in ("IntType", "IntSizeType", "Int128Type", "FloatType"):
+        vhelp.typedef(vf, prims, e, "enum", derive=vhelp.FIELDLESS_DERIVE)
+    vhelp.typedef(vf, prims, "PrimitiveType", "enum", derive="#[derive(Copy, Clone)]")
     vf.add(PRELUDE)
     vf.add(KOTLIN)
     vf.add(DARTP)
